@@ -60,12 +60,15 @@ type c10Case struct {
 	Tag  string   `json:"tag,omitempty"`
 	Site string   `json:"site,omitempty"`
 	Note string   `json:"note,omitempty"`
+	// Expect: regression corpus cases carry the recorded RFC value; the driver checks out[0] against it
+	Expect string `json:"expect,omitempty"`
 }
 
 type c10Out struct {
-	f    *os.File
-	site string
-	note string
+	f      *os.File
+	site   string
+	note   string
+	expect string
 }
 
 func newC10Out(t *testing.T) *c10Out {
@@ -84,7 +87,7 @@ func newC10Out(t *testing.T) *c10Out {
 }
 
 func (o *c10Out) emit(fn, h int, tag string, in [][]byte, n []uint64, out [][]byte) {
-	c := c10Case{Fn: fn, H: h, Tag: tag, N: n, In: []string{}, Out: []string{}, Site: o.site, Note: o.note}
+	c := c10Case{Fn: fn, H: h, Tag: tag, N: n, In: []string{}, Out: []string{}, Site: o.site, Note: o.note, Expect: o.expect}
 	if c.N == nil {
 		c.N = []uint64{}
 	}
